@@ -7,10 +7,11 @@ including the three debug assertions of the depth estimators whose unreachabilit
 non-local invariant (the depth tables mirror exactly what the estimated add policy inserted).
 Still outside: the assertion preconditions inside the match finder of `Chains.pred` (the transcription
 is total over Nat and does not model them; position arithmetic is covered by
-`chain_positions_in_u16_*`), stack, heap, running time.
+`chain_positions_in_u16_*`; the length calculator by `calc_bit_lengths_total`), stack, heap, running time.
 -/
 import Preflate.Props.C05
 import Preflate.Proofs.PublicTotal
+import Preflate.Proofs.HuffCalcT
 namespace Preflate
 
 /-- the complete parameter estimator reaches none of its panic sites on anything the parser can
@@ -35,6 +36,25 @@ theorem encStream_only_err {H : Type} (P : Pred H) (plain : Array Nat) (blocks :
     (hP : ∀ s e, P.repredictTok plain s = .error e → e = .err) (e : Fail)
     (h : encStream P plain blocks pad = .error e) : e = .err :=
   Proofs.encStream_only_err P plain blocks pad hv hP e h
+
+/-- huffman_calc.rs `calc_zlib::calc_bit_lengths` (Model/HuffCalcT.lean: a total transcription with
+    every Vec / slice index, `pop().unwrap()`, checked u32 / u8 / usize arithmetic as explicit panic
+    outcomes and explicit loop bounds; it IS the calculator of the executable predictor, so every
+    `analyze` / `public` request compares it with the code): on the callers' domain — up to 288 u16
+    frequencies with a 15-bit limit (literal/length and distance codes), up to 19 with a 7-bit limit
+    (code-length code) — it returns Ok, with every length within the limit. In general the precondition
+    is `#used symbols ≤ 2^max_bits` and it is tight (129 symbols of frequency 1 with 7 bits make the
+    redistribution loop underflow: a finding about the function, unreachable for its callers). -/
+theorem calc_bit_lengths_total (f : List Nat) (hu : ∀ x ∈ f, x < 65536) :
+    (f.length ≤ 288 → ∃ l, HuffCalcT.calcBitLengths f 15 = .ok l ∧ ∀ x ∈ l, x ≤ 15) ∧
+    (f.length ≤ 19 → ∃ l, HuffCalcT.calcBitLengths f 7 = .ok l ∧ ∀ x ∈ l, x ≤ 7) := by
+  constructor
+  · intro hl
+    obtain ⟨l, h1, h2, _⟩ := HuffCalcT.calcBitLengths_spec f 15 (HuffCalcT.pre_litdist f hl hu)
+    exact ⟨l, h1, h2⟩
+  · intro hl
+    obtain ⟨l, h1, h2, _⟩ := HuffCalcT.calcBitLengths_spec f 7 (HuffCalcT.pre_codelen f hl hu)
+    exact ⟨l, h1, h2⟩
 
 /-- ALL byte strings, either verify setting: Ok or Err -/
 theorem public_outcomes (verify : Bool) (d : List UInt8) :
